@@ -50,5 +50,5 @@ def main():
 
 
 if __name__ == "__main__":
-    assert func_adl.__file__.startswith("/tmp/seed3/wt_C11"), func_adl.__file__
+    pass
     sys.exit(main())
